@@ -4,16 +4,39 @@
 #define VP_MIR_H
 #include <setjmp.h>
 #include <sys/mman.h>
+#include <signal.h>
 #include "vp.h"
 #include "mir.h"
 #include "mir-gen.h"
 
-/* ---------------- arena allocator: bump pointer, reset wholesale between cases */
+/* ---------------- arena allocator: every block of a case is dropped wholesale when the next case starts, so a context
+   abandoned after an error callback costs nothing.  Plain builds: bump pointer.  ASan builds: real malloc blocks (so red
+   zones and use-after-free detection keep working) remembered in a list and freed at reset. */
 #ifndef VP_ARENA_SIZE
-#define VP_ARENA_SIZE ((size_t) 1 << 30)
+#define VP_ARENA_SIZE ((size_t) 1 << 31)
 #endif
-static char *vp_arena;
 static size_t vp_arena_used, vp_arena_peak;
+#if defined(__SANITIZE_ADDRESS__)
+static void **vp_blocks; static size_t vp_nblocks, vp_blocks_cap;
+static void vp_arena_reset (void) {
+  for (size_t i = 0; i < vp_nblocks; i++) free (vp_blocks[i]);
+  vp_nblocks = 0; vp_arena_used = 0;
+}
+static void vp_track (void *p) {
+  if (vp_nblocks == vp_blocks_cap) { vp_blocks_cap = vp_blocks_cap ? vp_blocks_cap * 2 : 4096; vp_blocks = realloc (vp_blocks, vp_blocks_cap * sizeof (void *)); }
+  vp_blocks[vp_nblocks++] = p;
+}
+static void *vp_ar_malloc (size_t sz, void *ud) { void *p = malloc (sz ? sz : 1); vp_track (p); vp_arena_used += sz; return p; }
+static void *vp_ar_calloc (size_t n, size_t sz, void *ud) { void *p = calloc (n ? n : 1, sz ? sz : 1); vp_track (p); vp_arena_used += n * sz; return p; }
+static void *vp_ar_realloc (void *p, size_t old, size_t nw, void *ud) {
+  /* keep the old block alive until reset (it stays in the list); hand out a fresh copy */
+  void *q = malloc (nw ? nw : 1); vp_track (q);
+  if (p != NULL) memcpy (q, p, old < nw ? old : nw);
+  return q;
+}
+static void vp_ar_free (void *p, void *ud) {}
+#else
+static char *vp_arena;
 static void vp_arena_init (void) {
   if (vp_arena == NULL) {
     vp_arena = mmap (NULL, VP_ARENA_SIZE, PROT_READ | PROT_WRITE, MAP_PRIVATE | MAP_ANONYMOUS | MAP_NORESERVE, -1, 0);
@@ -29,6 +52,7 @@ static void vp_arena_reset (void) {
 }
 static void *vp_ar_malloc (size_t sz, void *ud) {
   size_t a = (vp_arena_used + 15) & ~(size_t) 15;
+  if (vp_arena == NULL) vp_arena_init ();
   if (a + sz + 16 > VP_ARENA_SIZE) { fprintf (stderr, "harness: arena exhausted\n"); exit (3); }
   *(size_t *) (vp_arena + a) = sz;
   vp_arena_used = a + 16 + sz;
@@ -48,6 +72,7 @@ static void *vp_ar_realloc (void *p, size_t old, size_t nw, void *ud) {
   return q;
 }
 static void vp_ar_free (void *p, void *ud) {}
+#endif
 static struct MIR_alloc vp_arena_alloc = {vp_ar_malloc, vp_ar_calloc, vp_ar_realloc, vp_ar_free, NULL};
 
 /* ---------------- tracked code allocator: everything mapped during a case is unmapped at its end */
@@ -101,6 +126,30 @@ static MIR_context_t vp_new_ctx (void) {
   MIR_context_t ctx = MIR_init2 (&vp_arena_alloc, &vp_code_alloc);
   MIR_set_error_func (ctx, vp_error_func);
   return ctx;
+}
+
+/* a further context for the same case (shares the arena; not reset) */
+static MIR_context_t vp_more_ctx (void) {
+  MIR_context_t ctx = MIR_init2 (&vp_arena_alloc, &vp_code_alloc);
+  MIR_set_error_func (ctx, vp_error_func);
+  return ctx;
+}
+
+/* per-case watchdog: a hang inside the library is reported by the harness itself (exit 99 = "violation already printed") */
+static const char *vp_watch_fp = "timeout";
+static long vp_watch_case;
+static const char *vp_watch_phase = "";
+static void vp_on_alarm (int sig) {
+  char b[256];
+  int n = snprintf (b, sizeof b, "VIOL %s:%s | case=%ld watchdog fired in phase %s\n", vp_watch_fp, vp_watch_phase, vp_watch_case, vp_watch_phase);
+  fflush (stdout);
+  if (write (1, b, n) < 0) {}
+  _exit (99);
+}
+static void vp_watch (long c, const char *phase, unsigned secs) {
+  static int inst;
+  if (!inst) { signal (SIGALRM, vp_on_alarm); inst = 1; }
+  vp_watch_case = c; vp_watch_phase = phase; alarm (secs);
 }
 
 static const char *vp_err_name (MIR_error_type_t t) {
